@@ -110,7 +110,8 @@ class Interp(ExprMixin, CallMixin):
         for fi in self.prog.functions.values():
             if fi.name == "__init__" or isinstance(fi.node, ast.Lambda):
                 continue
-            if any(isinstance(s, ast.Attribute) and isinstance(s.ctx, ast.Store) for s in ast.walk(fi.node)):
+            if any(isinstance(s, ast.Attribute) and isinstance(s.ctx, ast.Store) for s in ast.walk(fi.node)) or \
+                    _mutates_self_field(fi.node):
                 writers.append(fi)
         for rnd in range(3):
             self.memo.clear()
@@ -142,8 +143,21 @@ class Interp(ExprMixin, CallMixin):
                 for sub in self.prog.subclasses(cq):
                     cur = table.get((sub, f))
                     table[(sub, f)] = join(cur, _generalise(join_all(vals)))
+            for (cq, f), vals in self._elem_writes.items():
+                for sub in self.prog.subclasses(cq):
+                    cur = table.get((sub, f))
+                    if cur is None:
+                        continue
+                    el = cur.elem
+                    ky = cur.key
+                    for v, k in vals:
+                        el = join(el, _generalise(v))
+                        if k is not None:
+                            ky = join(ky, _generalise(k))
+                    table[(sub, f)] = replace(cur, elem=el, key=ky)
             self.field_table = table
             self._non_init_writes.clear()
+            self._elem_writes.clear()
         self.field_table_ready = True
         self.memo.clear()
         self._entry_cache.clear()
@@ -158,6 +172,24 @@ class Interp(ExprMixin, CallMixin):
             if ty in self.prog.classes:
                 if not (in_init and frame.self_av is not None and base.alias == frame.self_av.alias):
                     self._non_init_writes[(ty, attr)].append(val)
+
+    _elem_writes = defaultdict(list)
+
+    def record_field_elem(self, locs, added: AV, how, frame, key=None):
+        """While the field table is being built: an element put into a container stored directly in a field of the
+        entry receiver (self.<f>.add(x), self.<f>[k] = v) contributes to that field's element abstraction."""
+        cls_q = self._entry_recv_cls
+        if cls_q is None:
+            return
+        for l in locs:
+            if l[0] == "self" and len(l[1]) == 1:
+                el = added
+                if how == "update":
+                    from .av import elem_of
+                    el = elem_of(added)
+                self._elem_writes[(cls_q, l[1][0])].append((el, key))
+
+    _entry_recv_cls = None
 
     # ----------------------------------------------------------- entry points
     def param_av(self, fi: FuncInfo, p: ast.arg) -> AV:
@@ -263,6 +295,8 @@ class Interp(ExprMixin, CallMixin):
         if cache and args is None and key in self._entry_cache:
             return self._entry_cache[key]
         recv = None
+        self._entry_recv_cls = (recv_cls or (fi.cls.qname if fi.cls is not None else None)) \
+            if fi.kind in ("method", "property", "setter") else None
         if fi.kind in ("method", "property", "setter"):
             recv = self.entry_self(recv_cls or fi.cls.qname)
         elif fi.kind == "class":
@@ -642,6 +676,24 @@ class Interp(ExprMixin, CallMixin):
                 # events of inlined callees are shared between call sites: record the catch on the call event
                 if ev.kind == "call":
                     ev.note = (ev.note + "|" if ev.note else "") + "caught:" + ",".join(caught or ["*"])
+
+
+_MUT_NAMES = {"add", "append", "update", "extend", "insert", "setdefault", "appendleft", "put"}
+
+
+def _mutates_self_field(fn) -> bool:
+    for sub in ast.walk(fn):
+        if isinstance(sub, ast.Call) and isinstance(sub.func, ast.Attribute) and sub.func.attr in _MUT_NAMES:
+            v = sub.func.value
+            if isinstance(v, ast.Attribute) and isinstance(v.value, ast.Name) and v.value.id == "self":
+                return True
+        if isinstance(sub, ast.Subscript) and isinstance(sub.ctx, ast.Store):
+            v = sub.value
+            while isinstance(v, ast.Subscript):
+                v = v.value
+            if isinstance(v, ast.Attribute) and isinstance(v.value, ast.Name) and v.value.id == "self":
+                return True
+    return False
 
 
 def _as_load(tgt):
